@@ -8,7 +8,7 @@ import UgoVerif.Proofs.ExecAtStarts
     `Safe` knows to be instruction starts of the handling frame's function;
   * `failWith`; the frame push of a call (`callTail`); the frame pop of a return (`retTail`).
 -/
-namespace UgoVerif.VM
+namespace UgoVerif.VM.Cfi
 open UgoVerif UgoVerif.Go
 open UgoVerif.Compile (Walk Bd readBE opWidth)
 
@@ -286,4 +286,4 @@ theorem tq_throwF (fuel : Nat) : ∀ err, Tq Safe ThrowQ (throwF fuel err) := by
   | zero => intro err; rw [throwF]; exact Tq.unsupported _ (fun _ h => h)
   | succ n ih => intro err; rw [throwF_succ]; exact tq_throwK (ih err) err
 
-end UgoVerif.VM
+end UgoVerif.VM.Cfi
